@@ -2,6 +2,7 @@
 package main
 
 import (
+	"encoding/json"
 	"fmt"
 	"os"
 
@@ -19,6 +20,16 @@ func main() {
 		if err != nil {
 			fmt.Fprintln(os.Stderr, "HARNESS-ERROR:", err)
 			os.Exit(2)
+		}
+		if r.Kind == "panic" {
+			// the code under test crashed inside the check: replaying is running that check again
+			var d struct{ Check, Tier string }
+			_ = json.Unmarshal(r.Data, &d)
+			if fn, ok := seq.Checks[d.Check]; ok {
+				os.Setenv("VERIF_OUT", os.TempDir())
+				fn(harness.New(d.Check, d.Tier, "seq"))
+				return
+			}
 		}
 		fn, ok := seq.Replayers[r.Kind]
 		if !ok {
